@@ -14,6 +14,9 @@ pub struct TreeCfg {
     pub huge_atoms: bool,
     /// percent of atoms drawn from a small per-tree pool (equal atoms in different nodes)
     pub pool_pct: u64,
+    /// the tree is a long list in which one big item occurs at both ends (and maybe in
+    /// between): back-reference paths of around and beyond 63 bytes (two-byte length prefix)
+    pub far_repeat: bool,
 }
 
 impl TreeCfg {
@@ -24,6 +27,7 @@ impl TreeCfg {
             medium_atoms: false,
             huge_atoms: false,
             pool_pct: 40,
+            far_repeat: false,
         }
     }
     /// swarm: per-run random configuration
@@ -50,6 +54,7 @@ impl TreeCfg {
             medium_atoms: rng.chance(1, 4),
             huge_atoms: (thorough && rng.chance(1, 40)) || rng.chance(1, 1500),
             pool_pct: *rng.pick(&[0, 20, 50, 80]),
+            far_repeat: rng.chance(1, 40),
         }
     }
 }
@@ -138,7 +143,62 @@ enum Shape {
     Balanced,
 }
 
+/// (B x1 x2 .. xn B): n around and above 500 small items between two (or more) copies of an
+/// item B whose serialization is around and above 68 bytes, so that the back-reference to B needs
+/// a path of about n bits - around the 63/64-byte boundary of the path's length prefix
+pub fn gen_far_repeat(rng: &mut Rng) -> Sx {
+    let mut t = Sx {
+        nodes: Vec::new(),
+        root: 0,
+    };
+    let n = if rng.chance(1, 4) { 490 + rng.usize(40) } else { 400 + rng.usize(1200) };
+    let make_big = |rng: &mut Rng, t: &mut Sx, content: &[Vec<u8>]| -> u32 {
+        if content.len() == 1 {
+            return t.push_atom(&content[0]);
+        }
+        let mut tail = t.push_atom(&[]);
+        for c in content.iter().rev() {
+            let a = t.push_atom(c);
+            tail = t.push_pair(a, tail);
+        }
+        let _ = rng;
+        tail
+    };
+    let content: Vec<Vec<u8>> = if rng.bool() {
+        let len = *rng.pick(&[60usize, 64, 65, 66, 67, 68, 70, 100, 200]) + rng.usize(3);
+        vec![rng.bytes(len)]
+    } else {
+        (0..2 + rng.usize(5)).map(|_| { let l = 8 + rng.usize(30); rng.bytes(l) }).collect()
+    };
+    let same_node = rng.bool();
+    let first_big = make_big(rng, &mut t, &content);
+    let mut positions = vec![rng.usize(6), n - 1 - rng.usize(6)];
+    for _ in 0..rng.usize(3) {
+        positions.push(rng.usize(n));
+    }
+    let pool: Vec<Vec<u8>> = (0..4).map(|_| { let l = rng.usize(4); rng.bytes(l) }).collect();
+    let mut items: Vec<u32> = Vec::with_capacity(n);
+    for i in 0..n {
+        if positions.contains(&i) {
+            let b = if same_node { first_big } else { make_big(rng, &mut t, &content) };
+            items.push(b);
+        } else {
+            let a = if rng.chance(1, 2) { rng.pick(&pool).clone() } else { let l = rng.usize(4); rng.bytes(l) };
+            items.push(t.push_atom(&a));
+        }
+    }
+    let mut tail = if rng.chance(1, 5) { if same_node { first_big } else { make_big(rng, &mut t, &content) } } else { t.push_atom(&[]) };
+    for it in items.into_iter().rev() {
+        tail = t.push_pair(it, tail);
+    }
+    t.root = tail;
+    t.compact()
+}
+
 pub fn gen_tree(rng: &mut Rng, cfg: &TreeCfg) -> Sx {
+    if cfg.far_repeat {
+        return gen_far_repeat(rng);
+    }
     let leaves = 1 + rng.usize(cfg.max_leaves.max(1));
     let shape = *rng.pick(&[Shape::Random, Shape::Random, Shape::LeftSpine, Shape::RightSpine, Shape::Balanced]);
     let pool: Vec<Vec<u8>> = (0..1 + rng.usize(4)).map(|_| gen_atom(rng, cfg)).collect();
